@@ -1920,6 +1920,223 @@ theorem core_atoms_eq_sum_components (ph : Phys) (r : Core) (n : Nuc) (h : CoreO
     apply sumBy_congr; intro b hbm
     exact (block_atoms_eq_sum_components ph b n ((ha a ham).2.2.2 b hbm)).symm
 
+/-! ### the symmetry factor the volume weights divide by is never zero -/
+
+/-- **`HexBlock.getSymmetryFactor()` is 1, 2 or 3** — so the hypothesis `sym ≠ 0` of the additivity theorems is
+established by the code for every block (and, through `self[0]`, every non-empty assembly) -/
+theorem hexBlockSymmetryFactor_mem (g t : Bool) (i j : Int) (u : Bool) :
+    hexBlockSymmetryFactor g t i j u = 1 ∨ hexBlockSymmetryFactor g t i j u = 2 ∨
+    hexBlockSymmetryFactor g t i j u = 3 := by
+  unfold hexBlockSymmetryFactor
+  split
+  · exact Or.inl rfl
+  · split
+    · split
+      · exact Or.inr (Or.inr rfl)
+      · split
+        · split
+          · exact Or.inr (Or.inl rfl)
+          · exact Or.inl rfl
+        · split
+          · exact Or.inr (Or.inl rfl)
+          · exact Or.inl rfl
+        · exact Or.inl rfl
+    · exact Or.inl rfl
+
+theorem hexBlockSymmetryFactor_ne_zero (g t : Bool) (i j : Int) (u : Bool) :
+    hexBlockSymmetryFactor g t i j u ≠ 0 := by
+  rcases hexBlockSymmetryFactor_mem g t i j u with h | h | h <;> rw [h] <;> norm_num
+
+/-- the factor 3 is the centre of a third-core periodic grid and nothing else -/
+theorem hexBlockSymmetryFactor_three (g t : Bool) (i j : Int) (u : Bool)
+    (h3 : hexBlockSymmetryFactor g t i j u = 3) : g = true ∧ t = true ∧ i = 0 ∧ j = 0 := by
+  unfold hexBlockSymmetryFactor at h3
+  split at h3
+  · norm_num at h3
+  · split at h3
+    · split at h3
+      · rename_i hg ht hij
+        exact ⟨by simpa using hg, ht, hij.1, hij.2⟩
+      · split at h3 <;> (try split at h3) <;> norm_num at h3
+    · norm_num at h3
+
+example (u : Bool) : hexBlockSymmetryFactor true true 0 0 u = 3 := by simp [hexBlockSymmetryFactor]
+
+/-! ### `adjustMassFrac`: the dict it hands to `setMassFracs` -/
+
+private theorem sumBy_const {β : Type} (k : Rat) (l : List β) : sumBy (fun _ : β => k) l = (l.length : Rat) * k := by
+  induction l with
+  | nil => simp [sumBy]
+  | cons a l ih => simp only [sumBy, ih, List.length_cons]; push_cast; ring
+
+private theorem sumBy_split {β : Type} (f : β → Rat) (P : β → Bool) (l : List β) :
+    sumBy f l = sumBy f (l.filter P) + sumBy f (l.filter (fun x => !P x)) := by
+  rw [sumBy_filter, sumBy_filter, ← sumBy_add]
+  apply sumBy_congr
+  intro a _
+  cases P a <;> simp
+
+/-- **the adjusted nuclides' new fractions sum to the requested value** (there is something to adjust) -/
+theorem adjPart_sum (nucs : List Nuc) (f : Nuc → Rat) (adjN : List Nuc) (val : Rat)
+    (hadj : adjSet nucs adjN ≠ []) : sumBy (fun q => q.2) (adjPart nucs f adjN val) = val := by
+  unfold adjPart
+  rw [sumBy_map]
+  simp only []
+  by_cases hA : sumBy f (adjSet nucs adjN) = 0
+  · simp only [hA, if_true]
+    rw [sumBy_const]
+    have : ((adjSet nucs adjN).length : Rat) ≠ 0 := by
+      have : (adjSet nucs adjN).length ≠ 0 := by
+        intro h0; exact hadj (List.eq_nil_of_length_eq_zero h0)
+      exact_mod_cast this
+    field_simp
+  · simp only [hA, if_false]
+    rw [sumBy_mul_const]
+    field_simp
+
+/-- **`adjustMassFrac` does not raise for a fraction in [0, 1] when a nuclide to adjust is present**, and the dict
+it hands to `setMassFracs` is the adjusted part followed by the rescaled remaining nuclides -/
+theorem adjustDictOf_eq (nucs : List Nuc) (f : Nuc → Rat) (adjN holdN : List Nuc) (val : Rat)
+    (hv0 : 0 ≤ val) (hv1 : val ≤ 1) (hadj : adjSet nucs adjN ≠ []) :
+    adjustDictOf nucs f adjN holdN val = some (adjPart nucs f adjN val ++ othersPart nucs f adjN holdN val) := by
+  unfold adjustDictOf
+  have h1 : ¬ (val > 1 ∨ val < 0) := by
+    intro h; rcases h with h | h <;> linarith
+  rw [if_neg h1, adjPart_sum nucs f adjN val hadj]
+  have h2 : ¬ (val - val > 1 / 10000000000 ∨ val - val > 1 / 10000000000) := by
+    intro h; rcases h with h | h <;> norm_num at h
+  rw [if_neg h2]
+
+/-- it raises (`ValueError`) outside [0, 1] -/
+theorem adjustDictOf_invalid (nucs : List Nuc) (f : Nuc → Rat) (adjN holdN : List Nuc) (val : Rat)
+    (h : val > 1 ∨ val < 0) : adjustDictOf nucs f adjN holdN val = none := by
+  unfold adjustDictOf; rw [if_pos h]
+
+/-- the remaining nuclides are those neither adjusted nor held: with disjoint name lists the three groups
+partition the object's nuclides -/
+private theorem others_sum (nucs : List Nuc) (f : Nuc → Rat) (adjN holdN : List Nuc)
+    (hdis : ∀ n ∈ nucs, ¬ (adjN.contains n = true ∧ holdN.contains n = true)) :
+    sumBy f nucs = sumBy f (adjSet nucs adjN) + sumBy f (constSet nucs holdN) + sumBy f (othersSet nucs adjN holdN) := by
+  unfold adjSet constSet othersSet
+  rw [sumBy_split f (fun n => adjN.contains n) nucs, sumBy_filter f (fun n => holdN.contains n) nucs,
+    sumBy_filter f (fun n => !adjN.contains n && !holdN.contains n) nucs,
+    sumBy_filter f (fun x => !(fun n => adjN.contains n) x) nucs, add_assoc, ← sumBy_add]
+  congr 1
+  apply sumBy_congr
+  intro n hn
+  have := hdis n hn
+  cases ha : adjN.contains n <;> cases hh : holdN.contains n <;> simp_all
+
+/-- **the fractions handed to `setMassFracs` sum to one minus the held nuclides' share**, so that its
+re-normalisation of the nuclides it was not given (exactly the held ones) leaves them what they were -/
+theorem adjustDict_total (nucs : List Nuc) (f : Nuc → Rat) (adjN holdN : List Nuc) (val : Rat)
+    (hadj : adjSet nucs adjN ≠ []) (hone : sumBy f nucs = 1)
+    (hdis : ∀ n ∈ nucs, ¬ (adjN.contains n = true ∧ holdN.contains n = true))
+    (hoth : 1 - sumBy f (adjSet nucs adjN) - sumBy f (constSet nucs holdN) ≠ 0) :
+    sumBy (fun q => q.2) (adjPart nucs f adjN val ++ othersPart nucs f adjN holdN val)
+      = 1 - sumBy f (constSet nucs holdN) := by
+  rw [sumBy_append, adjPart_sum nucs f adjN val hadj]
+  unfold othersPart
+  rw [sumBy_map]
+  simp only []
+  rw [sumBy_mul_const]
+  have hO : sumBy f (othersSet nucs adjN holdN)
+      = 1 - sumBy f (adjSet nucs adjN) - sumBy f (constSet nucs holdN) := by
+    have := others_sum nucs f adjN holdN hdis
+    rw [hone] at this; linarith
+  unfold adjustFactor2
+  rw [if_neg hoth, adjPart_sum nucs f adjN val hadj, hO]
+  field_simp
+  ring
+
+/-- hence what `setMassFracs` assigns to a held nuclide `q` — `(1 − Σ given) · (f q / Σ not given)` with the not-given
+nuclides being the held ones — is its old fraction -/
+theorem adjust_held_constant (nucs : List Nuc) (f : Nuc → Rat) (adjN holdN : List Nuc) (val : Rat) (q : Nuc)
+    (hadj : adjSet nucs adjN ≠ []) (hone : sumBy f nucs = 1)
+    (hdis : ∀ n ∈ nucs, ¬ (adjN.contains n = true ∧ holdN.contains n = true))
+    (hoth : 1 - sumBy f (adjSet nucs adjN) - sumBy f (constSet nucs holdN) ≠ 0)
+    (hC : sumBy f (constSet nucs holdN) ≠ 0) :
+    (1 - sumBy (fun q => q.2) (adjPart nucs f adjN val ++ othersPart nucs f adjN holdN val))
+      * (f q / sumBy f (constSet nucs holdN)) = f q := by
+  rw [adjustDict_total nucs f adjN holdN val hadj hone hdis hoth]
+  field_simp
+  ring
+
+example : adjustDictOf [1, 2, 3] (fun n => if n = 1 then 1/2 else 1/4) [1] [2] (1/4)
+    = some (adjPart [1, 2, 3] (fun n => if n = 1 then 1/2 else 1/4) [1] (1/4)
+        ++ othersPart [1, 2, 3] (fun n => if n = 1 then 1/2 else 1/4) [1] [2] (1/4)) :=
+  adjustDictOf_eq _ _ _ _ _ (by norm_num) (by norm_num) (by decide)
+
+example := adjustDict_total [1, 2, 3] (fun n => if n = 1 then 1/2 else 1/4) [1] [2] (1/4) (by decide)
+  (by norm_num [sumBy]) (by decide) (by norm_num [sumBy, adjSet, constSet])
+
+/-! ### composites of arbitrary depth: additivity by structural induction on the tree -/
+
+theorem wvolList_eq (sym : Rat) (kids : List Tree) : Tree.wvolList sym kids = Tree.volList kids / sym := by
+  induction kids with
+  | nil => simp [Tree.wvolList, Tree.volList]
+  | cons t ts ih => simp only [Tree.wvolList, Tree.volList, ih]; ring
+
+mutual
+/-- **any depth**: the homogenised density of a composite times its volume is the sum over its LEAF components
+of `N_c · V_c`, each divided by the symmetry factors of the composites above it — by structural induction over a
+tree of any shape (`getNuclideNumberDensities` applied recursively) -/
+theorem tree_atoms_additive (n : Nuc) : ∀ t : Tree, t.WF → t.nd n * t.vol = t.leafAtoms n
+  | .leaf c, _ => by simp only [Tree.nd, Tree.vol, Tree.leafAtoms]; ring
+  | .node sym kids, h => by
+    simp only [Tree.WF] at h
+    obtain ⟨hs, hv, hk⟩ := h
+    have hl := tree_atoms_additive_list n sym kids hs hk
+    have hw := wvolList_eq sym kids
+    simp only [Tree.nd, Tree.vol, Tree.leafAtoms, hw, hl]
+    have : Tree.volList kids / sym ≠ 0 := div_ne_zero hv hs
+    rw [if_neg this]
+    field_simp
+theorem tree_atoms_additive_list (n : Nuc) (sym : Rat) : ∀ kids : List Tree, sym ≠ 0 → Tree.WFList kids →
+    Tree.wndList n sym kids = Tree.leafAtomsList n kids / sym
+  | [], _, _ => by simp [Tree.wndList, Tree.leafAtomsList]
+  | t :: ts, hs, h => by
+    simp only [Tree.WFList] at h
+    have h1 := tree_atoms_additive n t h.1
+    have h2 := tree_atoms_additive_list n sym ts hs h.2
+    simp only [Tree.wndList, Tree.leafAtomsList, h2, ← h1]
+    field_simp
+end
+
+mutual
+/-- **any depth**: mass = density × volume × A/K at every node of a tree of any shape, when each component
+carries the symmetry factor of the composite holding it and only the composites that hold components are cut -/
+theorem tree_mass_eq_density_volume (ph : Phys) (n : Nuc) : ∀ (t : Tree) (psym : Rat), psym ≠ 0 → t.WF →
+    t.SymOK psym → t.mass ph n = t.nd n * t.vol / psym * ph.aw n / ph.K
+  | .leaf c, psym, _, _, hsym => by
+    simp only [Tree.SymOK] at hsym
+    simp only [Tree.mass, Comp.mass, Tree.nd, Tree.vol, hsym]; ring
+  | .node sym kids, psym, _, h, hsym => by
+    simp only [Tree.SymOK] at hsym
+    obtain ⟨hp, hk⟩ := hsym
+    have hwf := h
+    simp only [Tree.WF] at h
+    obtain ⟨hs, _, hkw⟩ := h
+    rw [tree_atoms_additive n _ hwf, hp]
+    simp only [Tree.mass, Tree.leafAtoms]
+    rw [tree_mass_list ph n sym kids hs hkw hk]; ring
+theorem tree_mass_list (ph : Phys) (n : Nuc) (sym : Rat) : ∀ kids : List Tree, sym ≠ 0 → Tree.WFList kids →
+    Tree.SymOKList sym kids → Tree.massList ph n kids = Tree.leafAtomsList n kids / sym * ph.aw n / ph.K
+  | [], _, _, _ => by simp [Tree.massList, Tree.leafAtomsList]
+  | t :: ts, hs, h, hk => by
+    simp only [Tree.WFList] at h
+    simp only [Tree.SymOKList] at hk
+    have h1 := tree_mass_eq_density_volume ph n t sym hs h.1 hk.1
+    have h2 := tree_mass_list ph n sym ts hs h.2 hk.2
+    simp only [Tree.massList, Tree.leafAtomsList, h1, h2, ← tree_atoms_additive n t h.1]
+    ring
+end
+
+/-- a 4-level tree (composite ⊃ composite ⊃ cut block ⊃ components): the hypotheses are satisfiable -/
+example : (Tree.node 1 [Tree.node 1 [Tree.node 3 [.leaf ⟨6, 3, [(1, 2)]⟩, .leaf ⟨24, 3, [(1, 4), (2, 8)]⟩]],
+    Tree.node 1 [.leaf ⟨5, 1, [(2, 1)]⟩]]).WF := by
+  simp [Tree.WF, Tree.WFList, Tree.volList, Tree.vol]; norm_num
+
 /-! ### non-vacuity: concrete objects satisfying the hypotheses -/
 
 private def exPh : Phys := ⟨2, 1, fun _ => 10⟩
